@@ -69,6 +69,48 @@ CLAIMED = {
          "the guarded `q += K` / `x - K` shapes are the only offset arithmetic in each case (else UNDECIDED, exit 2)", "DESIGN.md §2.J, §4/C18"),
 }
 
+
+# Clauses added after the third round of seeded changes (DESIGN.md §10.2): appended to the
+# technique and level text of the property.
+R3 = {
+ "C01": ("dominance of the bare-\"+\" length test over the FASTQ label comparison; clone deep-freshness of the reader's record template",
+         "Also decides that the reader compares the text after '+' with the label only when the separator is longer than the bare \"+\" the writer may emit, and that linear.Seq/QSeq.Clone (which makes each record read) never shares storage with the template on any path."),
+ "C02": ("interprocedural SSA flow of coordinate reads into fmt.Fprint* arguments counting the 0-based/1-based conversions applied on the way (through helpers); producer analysis of the readers' column vectors",
+         "Also decides that every start read reaches the written text through exactly one +1 conversion and every end through none whatever helpers lie in between, and that BED/GFF columns are produced by bytes.Split/SplitN on exactly the tab the writers join with."),
+ "C03": ("constant evaluation of byte-indexed lookup tables against the sentinel their users test",
+         "Also decides that every entry of the strand tables that is not set explicitly holds the value mustAtos rejects (an unlisted character cannot pass as a strand)."),
+ "C04": ("taint flow of the assembled ReadLine line to anything but trims; EOF path exploration for fragments still pending in the accumulator",
+         "Also decides that the FASTA/FASTQ line assembled from fragments reaches only whitespace-removing calls before it is classified or compared, and that at end of input no record is returned while accumulated fragments of an unterminated final line are still unread."),
+ "C05": ("symbolic linear form of the offset each row receives (must equal Start()+End()-row.End()); store-target analysis of the strand negation in every RevComp",
+         "Also decides that rows are mirrored about the alignment's own span (not its Offset field or a length) and that each RevComp stores the negated strand into the sequence's own annotation rather than a local copy."),
+ "C06": ("difference-constraint proof of Truncate's slice bounds from dominating range checks",
+         "Also decides that for every start/end that reaches a Slice call in Truncate, 0 <= low <= high <= length follows from the dominating range checks (with End() == Start() + Len()), so out-of-range arguments produce the error, never a slice panic."),
+ "C07": ("cycle analysis of the row loop that fills AppendEach's scratch column",
+         "Also decides that every entry of the scratch column handed to AppendColumns is rewritten for every column on every path (no stale letter of the previous column stands in for the gap letter)."),
+ "C08": ("interval cover of the DP table's border initialisation (first row, first column) from induction ranges of the initialising loops",
+         "Also decides that where the gap model needs base cases (NW, NWAffine, Fitted row 0, FittedAffine) the border writes cover columns 1..c-1 of row 0 and rows 1..r-1 of column 0 without a hole."),
+ "C09": ("interval cover of the DP table's border initialisation",
+         "Also decides the border-cover clause of C08 (an uninitialised border cell lets a gap start for free, so reported scores no longer equal recomputed ones)."),
+ "C10": ("backward demanded-bits dataflow over k-mer word functions; symbolic evaluation of range-length guards at end-start == k",
+         "Also decides that GCof/Format/ComplementOf (and their methods) can see every one of the 2*MaxKmerLen bits of the k-mer word, and that no guard of ForEachKmerOf rejects a sub-range of exactly k letters."),
+ "C11": ("ownership typestate of the chunk buffer across the pool/writable channels (nil placeholder check after a pool receive; m.chunk reassigned whenever the buffer is handed to a channel)",
+         "Also decides that a buffer received from the pool is checked for the nil placeholder and replaced by a chunkSize-capacity buffer before use (cap(m.chunk) == chunkSize is what the spill and in-memory tests rely on), and that m.chunk never keeps pointing at a buffer that was sent to the pool or the writer."),
+ "C12": ("error-slot stickiness as C13; must-pass of the pool hand-back on every exit of the chunk writer",
+         "Also decides that no writer overwrites a recorded error with nil and that every exit of the chunk writer after it took a run buffer returns the buffer to the pool (otherwise the next spill blocks forever)."),
+ "C13": ("must-pass of close and AutoClear-removal for every run popped from the heap and not pushed back",
+         "Also decides that on every path of Pull a popped run is either pushed back or closed and, under AutoClear, removed."),
+ "C14": ("symbolic linear forms (with inlining of diagIndex) of the retired tube's diagonal and of the run-extension distance test",
+         "Also decides that tubeEnd retires the tube of diagonal q (diagIndex(Tlen-1, q-1) == q) and that a k-mer extends the current run exactly when q - QHi <= MinMatch - WordSize (after substituting the definition of maxKmerDist)."),
+ "C15": ("dominating-equality analysis of the duplicate-removal passes; constructor-ownership rule for the per-aligner filter",
+         "Also decides that AlignTraps discards a hit as a duplicate only when both coordinates of its start (or of its end) equal the kept hit's, and that every PALS value owns a filter of its own (Share does not alias the donor's stateful Filter)."),
+ "C18": ("rounding-domain rule for Ephred/Esolexa",
+         "Also decides that the nearest score is not chosen by comparing differences of probabilities (nearest in probability space); the logarithmic route is recognised, anything else is UNDECIDED."),
+ "C19": ("must-pass of the mailbox put-back after every take in fulfill/fail/Wait; spawn-site rule for the result channel's closer",
+         "Also decides that a message taken out of the promise is put back on every path to a return (a rejected Fulfill leaves the promise set), and that the goroutine closing the result channel is started by NewProcessor, so it runs however the caller closes the queue."),
+ "C20": ("symbolic linear form of the exon overlap test",
+         "Also decides that neighbouring exons are rejected exactly when start < previous end (half-open overlap), neither one base later nor earlier."),
+}
+
 NOT_APPLICABLE = {
 }
 
@@ -79,6 +121,10 @@ def main():
         pid = p["id"]
         if pid in CLAIMED:
             tech, text, note, ref = CLAIMED[pid]
+            if pid in R3:
+                tech = tech + "; " + R3[pid][0]
+                text = text + " " + R3[pid][1]
+                ref = ref + "; Part II §10.2"
             checks.append({
                 "property_id": pid,
                 "quick_cmd": "./check %s quick" % pid,
